@@ -132,6 +132,12 @@ def apply_history(n, links, rem0, hist, rev=False):
             rev = "loaded"
         wf = m.project.workflow
         wf.initialize()
+    if rev == "reinit-kept-log":
+        # the model carries a log from earlier activity; its state is initialised again by hand with the logs kept, and PERT is read before any run
+        for x in m.tasks:
+            x.state_record_list.extend([x.state, x.state])
+            x.remaining_work_amount_record_list.extend([x.remaining_work_amount, x.remaining_work_amount])
+        wf.initialize(state_info=True, log_info=False)
     t = 0
     if rev == "loaded" and not hist:
         m = _loaded(m)
@@ -321,6 +327,7 @@ def hist_items(tier):
                         out.append((n, links, rem0, 1, "dup-links"))
                         out.append((n, links, rem0, 1, "caller-list"))
                         out.append((n, links, rem0, 1, "loaded-order"))
+                        out.append((n, links, rem0, 1, "reinit-kept-log"))
                         out.append((n, links, rem0, 1, "late-append"))
                         for rot in range(len(links)):
                             out.append((n, links[rot:] + links[:rot], rem0, 1, "late-link"))  # every link takes its turn as the one added late
@@ -347,6 +354,7 @@ def hist_items(tier):
                         out.append((n, links, rem0, 2, "dup-links"))
                         out.append((n, links, rem0, 2, "caller-list"))
                         out.append((n, links, rem0, 2, "loaded-order"))
+                        out.append((n, links, rem0, 2, "reinit-kept-log"))
                         for rot in range(len(links)):
                             out.append((n, links[rot:] + links[:rot], rem0, 2, "late-link"))
         for links in F.fs_dags(5):
